@@ -14,9 +14,21 @@ import tempfile
 VERIF = os.path.dirname(os.path.dirname(os.path.abspath(__file__)))
 
 
-def run(cmd, **kw):
-    p = subprocess.run(cmd, capture_output=True, text=True, **kw)
-    return p.returncode, (p.stdout + p.stderr)
+def run(cmd, timeout=None, **kw):
+    """run in a process group of its own, so that a timeout takes the worker processes with it"""
+    import signal
+
+    p = subprocess.Popen(cmd, stdout=subprocess.PIPE, stderr=subprocess.STDOUT, text=True, start_new_session=True, **kw)
+    try:
+        out, _ = p.communicate(timeout=timeout)
+        return p.returncode, out
+    except subprocess.TimeoutExpired:
+        try:
+            os.killpg(p.pid, signal.SIGKILL)
+        except ProcessLookupError:
+            pass
+        out, _ = p.communicate()
+        return 124, (out or "") + "\n[timed out]"
 
 
 def main():
@@ -53,7 +65,7 @@ def main():
         res["checks"] = {}
         for pid in ids:
             env2 = dict(os.environ, SX_REPO_SRC=os.path.join(dst, "src"), SX_EVIDENCE_DIR=os.path.join(tmp, "evidence"), SX_REPLAY_DIR=os.path.join(VERIF, "scratch", "replays"))
-            rc, out = run([os.path.join(VERIF, "check"), pid, "--tier", tier], env=env2, timeout=1500)
+            rc, out = run([os.path.join(VERIF, "check"), pid, "--tier", tier], env=env2, timeout=2400)
             lines = [l for l in out.splitlines() if l.startswith(("VIOLATION", "INCONCLUSIVE", "ENGINE-FAULT", "[" + pid))]
             res["checks"][pid] = {"exit": rc, "lines": [l[:300] for l in lines[:12]]}
     finally:
